@@ -41,7 +41,10 @@ def _resolve_directory(path: Path) -> Path:
     Resolves the directory the file resides in but not the directory entry of the file itself, such that a definition file
     that is a symbolic link keeps the name (and hence the type name, version and port-ID) it has in its own directory.
     """
-    return path.parent.resolve(strict=False) / path.name
+    try:
+        return path.parent.resolve(strict=False) / path.name
+    except (OSError, RuntimeError) as ex:  # E.g., a loop of symbolic links (RuntimeError prior to Python 3.13).
+        raise InvalidDefinitionError("The location of the file cannot be resolved: %s" % ex, path) from None
 
 
 class DSDLDefinition(ReadableDSDLFile):
@@ -196,11 +199,15 @@ class DSDLDefinition(ReadableDSDLFile):
         self._file_path = _resolve_directory(Path(file_path))
         del file_path
 
-        if not self._file_path.exists():
+        try:
+            exists, is_file = self._file_path.exists(), self._file_path.is_file()
+        except OSError:  # E.g., a path component that is too long cannot name an existing file.
+            exists = is_file = False
+        if not exists:
             raise InvalidDefinitionError(
                 "Attempt to construct ReadableDSDLFile object for file that doesn't exist.", self._file_path
             )
-        if not self._file_path.is_file():
+        if not is_file:
             raise InvalidDefinitionError("A definition must be a regular file, not a directory", self._file_path)
 
         self._root_namespace_path = Path(root_namespace_path).resolve()
@@ -350,11 +357,11 @@ class DSDLDefinition(ReadableDSDLFile):
     def text(self) -> str:
         if self._text is None:
             # DSDL definitions are UTF-8 text regardless of the locale of the process.
-            with open(self._file_path, encoding="utf-8") as f:
-                try:
+            try:
+                with open(self._file_path, encoding="utf-8") as f:
                     self._text = str(f.read())
-                except UnicodeDecodeError as ex:
-                    raise InvalidDefinitionError("The file is not valid UTF-8 text: %s" % ex, self._file_path) from None
+            except UnicodeDecodeError as ex:
+                raise InvalidDefinitionError("The file is not valid UTF-8 text: %s" % ex, self._file_path) from None
         return self._text
 
     @property
